@@ -10,5 +10,6 @@ INVARIANT PinHeld
 INVARIANT Carried
 INVARIANT PubkeysWritten
 INVARIANT WriteError
+INVARIANT InputError
 VIEW View
 CHECK_DEADLOCK FALSE
